@@ -23,6 +23,7 @@ c_MVals1 == {"m1"}
 c_CfgsA == {"e32", "c32m"}
 c_CfgsB == {"e32"}
 c_CfgsI8 == {"ci8"}
+c_CfgsBad == {"e32", "c16", "ei8"}
 c_CfgsAll == {"e32", "c32", "e16", "ci8", "e32m"}
 c_Maints1 == {"mc1"}
 c_Maints2 == {"mc2"}
